@@ -71,19 +71,36 @@ def direct(seed, tier, model, stats):
     Ns = [8, 9, 16, 33, 63, 64, 65, 250, 251] if tier == "quick" else [8, 9, 16, 33, 63, 64, 65, 127, 250, 251, 512, 1001, 1024, 1025]
     reps = 3 if tier == "quick" else 8
     for N in Ns:
-        for _ in range(reps):
+        for rep in range(reps + 1):
             if len(fails) >= 3:
                 break
             kind = r.choice(["HP", "LP"])
             order = r.choice([1, 2, 3])
             SR = r.choice([1, 100, 1e4, 1e9])
             fc = SR * r.choice([1e-4, 1e-2, 0.12, 0.5, 3])
+            if rep == reps:
+                # one strongly attenuating filter per length (gain of the compensation 1e7 .. 1e10)
+                kind, order, fc = r.choice([("LP", 2, SR * 1e-4), ("LP", 3, SR * 1e-2), ("LP", 2, SR * 3e-4)])
             dc = r.choice([0.5, 1, 2])
             H = H_doc(kind, SR, fc, order, dc, N)
             kappa = cond(H, N)
             label = f"N={N} kind={kind} order={order} SR={SR} f_cut={fc} DCgain={dc}"
             if kappa > 1e7:
-                continue         # beyond what double precision can restore to 1e-9 * kappa meaningfully
+                # strongly attenuating filters (condition number up to 1e10): double precision still restores every bin to a few
+                # thousand eps x kappa, far below the signal; tolerance 1e-14 * kappa (measured worst case: 2e-17 * kappa) instead of 1e-9 * kappa
+                if kappa <= 1e10:
+                    tested["roundtrips"] += 2
+                    x = np.zeros(N)
+                    x[r.randrange(N)] = 1.0
+                    fw = ripasso.applyRCFilter(x, SR, kind, fc, order, DCgain=dc)
+                    iv = ripasso.applyInverseRCFilter(x, SR, kind, fc, order, DCgain=dc)
+                    for lab, y in (("inverse(filter(x))", ripasso.applyInverseRCFilter(fw, SR, kind, fc, order, DCgain=dc)),
+                                   ("filter(inverse(x))", ripasso.applyRCFilter(iv, SR, kind, fc, order, DCgain=dc))):
+                        e, k = spec_diff(y, x, N)
+                        if e > 1e-14 * kappa * N:
+                            fails.append({"what": f"{lab} does not restore bin {k} of a unit impulse: |diff| {e:.3e} (kappa {kappa:.2e})", "call": label})
+                            break
+                continue
             fwd = lambda x: ripasso.applyRCFilter(x, SR, kind, fc, order, DCgain=dc)
             inv = lambda x: ripasso.applyInverseRCFilter(x, SR, kind, fc, order, DCgain=dc)
             for nm, x in signals(r, N):
